@@ -137,6 +137,11 @@ func c14HeaderShapes(tier string) [][][2]int {
 			out = append(out, [][2]int{{1, a}, {1, b}})
 		}
 	}
+	// the 2 -> 3 byte length prefix (body 16384) once more with roots of ordinary size only (398 roots of 36 bytes and
+	// one of 30..55: bodies 16372..16397), so that the boundary stays covered when a version refuses oversize roots
+	for l := 30; l <= 55; l++ {
+		out = append(out, [][2]int{{398, 36}, {1, l}})
+	}
 	if tier == "thorough" {
 		for body := 2097152 - 2; body <= 2097152+2; body++ {
 			if l, ok := c14SingleRootAtBody(body); ok {
@@ -148,4 +153,15 @@ func c14HeaderShapes(tier string) [][][2]int {
 		}
 	}
 	return out
+}
+
+// c14HdrOversize: the header holds a root CID longer than the largest CID go-car handles elsewhere (2 KiB,
+// DefaultMaxIndexCidSize), or its body is over 1 MiB. Whether such an archive must be readable is a resource policy.
+func c14HdrOversize(roots [][]byte) bool {
+	for _, r := range roots {
+		if len(r) > 2<<10 {
+			return true
+		}
+	}
+	return len(refcar.EncodeHeaderBody(roots, false, 1)) > 1<<20
 }
